@@ -14,7 +14,7 @@ func init() {
 	register("C01", &propDef{
 		Title:           "Unpack never touches anything outside the destination directory",
 		ConfigSensitive: true,
-		Rules:           []func(*Checker){ruleC01Sinks, ruleC01Ctor, ruleC01Guards, rulePredSound("C01.pred"), ruleC01Walk, ruleC01NoFollow},
+		Rules:           []func(*Checker){ruleC01Sinks, ruleC01Ctor, ruleC01Guards, rulePredSound("C01.pred"), ruleC01Walk, ruleC01NoFollow, ruleC01Replace},
 		NotDecided: []string{
 			"whether a lexically accepted link resolves physically inside dst (depends on other links; see C04)",
 			"the bound of the parent walk (it stops before the final component; the final component is covered by C01.nofollow)",
@@ -417,6 +417,13 @@ func mayReturnNilErr(r *ssa.Return) bool {
 		nn, _ := errCheckEdges(fn, v)
 		if guarded(r.Block(), nn) {
 			continue
+		}
+		// a load of a cell (captured variable / named result): tested through another load of the
+		// same cell, with no store to the cell between the test and this return
+		if ld, ok := v.(*ssa.UnOp); ok && ld.Op == token.MUL {
+			if cellNonNilAt(fn, ld.X, r.Block()) {
+				continue
+			}
 		}
 		// or it is the error of a (bool, error) validator returned on its false edge
 		if ex, ok := v.(*ssa.Extract); ok {
@@ -1046,4 +1053,110 @@ func isUnpackInfoSlice(t types.Type) bool {
 	}
 	n, ok := types.Unalias(sl.Elem()).(*types.Named)
 	return ok && n.Obj().Name() == "UnpackInfo"
+}
+
+// C01.replace — nothing but the verified link remover deletes or renames an
+// entry path during Unpack.
+func ruleC01Replace(c *Checker) {
+	const R = "C01.replace"
+	c.rule(R, "During Unpack an existing entry path is only ever deleted by the verified link-remover helper (which removes symlinks and nothing else) and that helper is called only for file and directory entries: every remove/rename-class call reachable from Unpack lies inside such a helper. A bare os.Remove of an entry path can delete an (empty) directory already recorded for the deferred restore and let a later symlink entry take its place, through which the restore then changes mode and times outside dst.", 1)
+	u := getUnpackCtx(c, R)
+	if u == nil {
+		return
+	}
+	p := c.P
+	n := 0
+	for _, s := range fsSinkSites(u.ReachL) {
+		if s.Sink.Class != "remove" && s.Sink.Class != "rename" {
+			continue
+		}
+		n++
+		ok := p.isLinkRemover(s.Fn)
+		c.check(ok, R, p.FuncName(s.Fn), shortCallee(s.Name)+" of an entry path", p.Pos(s.Call.Pos()), "inside the link remover (removes only symlinks)", "an entry path is removed outside the link-remover helper: files or directories materialised earlier (and possibly recorded for the deferred restore) can be replaced by a later entry")
+	}
+	// the helper is applied only to file/directory entries, never before creating a link
+	for _, ci := range callsIn(u.Unpack) {
+		cl, ok := ci.(*ssa.Call)
+		if !ok {
+			continue
+		}
+		g := cl.Common().StaticCallee()
+		if g == nil || !p.InModule(g) || !p.isLinkRemover(g) {
+			continue
+		}
+		n++
+		// by partial evaluation: the call is not reachable for the symlink kind
+		ki := getKinds(c, u)
+		reachSym := ki.Eval['2'] != nil && ki.Eval['2'].Calls[cl]
+		c.check(!reachSym, R, p.FuncName(u.Unpack), "link remover not applied to link entries", p.Pos(cl.Pos()), "under Typeflag = TypeSymlink the remover call is unreachable", "a symlink entry removes what is under its name before being created: a later link can replace an earlier one (or a recorded directory)")
+	}
+	c.check(n > 0, R, p.FuncName(u.Unpack), "removal sites", p.Pos(u.Unpack.Pos()), fmt.Sprintf("%d removal/remover site(s)", n), "no removal site found (the link remover is gone: see C01.nofollow)")
+}
+
+// cellNonNilAt: block b is only reached over the non-nil edge of a test of a
+// load of the cell, and the cell is not stored to in the region that edge
+// dominates.
+func cellNonNilAt(fn *ssa.Function, cell ssa.Value, b *ssa.BasicBlock) bool {
+	for _, blk := range fn.Blocks {
+		if len(blk.Instrs) == 0 {
+			continue
+		}
+		ifi, ok := blk.Instrs[len(blk.Instrs)-1].(*ssa.If)
+		if !ok {
+			continue
+		}
+		c, neg := stripNot(ifi.Cond)
+		bo, ok := c.(*ssa.BinOp)
+		if !ok || (bo.Op != token.NEQ && bo.Op != token.EQL) || !isNilConst(bo.Y) {
+			continue
+		}
+		ld, ok := bo.X.(*ssa.UnOp)
+		if !ok || ld.Op != token.MUL || ld.X != cell {
+			continue
+		}
+		// no store to the cell between the load and the branch
+		clean := ld.Block() == blk
+		if clean {
+			for i := instrIndex(ld); i < len(blk.Instrs); i++ {
+				if st, ok := blk.Instrs[i].(*ssa.Store); ok && st.Addr == cell {
+					clean = false
+				}
+				if _, ok := blk.Instrs[i].(*ssa.Call); ok {
+					clean = clean && true
+				}
+			}
+		}
+		if !clean {
+			continue
+		}
+		edge := 0
+		if bo.Op == token.EQL {
+			edge = 1
+		}
+		if neg {
+			edge = 1 - edge
+		}
+		tgt := blk.Succs[edge]
+		if !guarded(b, []Edge{{blk, edge}}) {
+			continue
+		}
+		// no store to the cell in the region dominated by the edge target, up to b
+		stored := false
+		for _, x := range fn.Blocks {
+			if x == tgt || tgt.Dominates(x) {
+				for _, in := range x.Instrs {
+					if st, ok := in.(*ssa.Store); ok && st.Addr == cell {
+						// a store of a fresh non-nil error keeps it non-nil
+						if !definitelyNonNilErr(st.Val) {
+							stored = true
+						}
+					}
+				}
+			}
+		}
+		if !stored {
+			return true
+		}
+	}
+	return false
 }
